@@ -856,6 +856,9 @@ class SymCtx:
         self.t0 = time.time()
         self.next_model = None
         self._empty_model = None
+        self.export_every = 0  # cross-solver re-check: export every k-th discharged obligation
+        self.export_max = 0
+        self.exported = []
         self.record_paths = True
         self.max_recorded_paths = 60
         self.record_stride = 5
@@ -1234,6 +1237,13 @@ class SymCtx:
         r, m = self._check(neg)
         if r == z3.unsat:
             self.n_discharged += 1
+            if self.export_every and len(self.exported) < self.export_max and self.n_discharged % self.export_every == 1:
+                self.solver.push()
+                self.solver.add(neg)
+                try:
+                    self.exported.append({"label": label, "smt2": self.solver.to_smt2()})
+                finally:
+                    self.solver.pop()
             if len(self.samples) < 6 and (self.n_oblig % 7 == 1):
                 self.samples.append(
                     {"obligation": label, "path_trace": self.trace[-12:], "negated_claim": str(cond.t)[:300], "verdict": "unsat"}
